@@ -227,7 +227,7 @@ def _tree_hash():
             # hv/checks holds the per-property drivers only: they do not affect summaries or explorations
             dirs[:] = sorted(d for d in dirs if not (base.endswith('hv') and d == 'checks'))
             for fn in sorted(files):
-                if fn.endswith('.py'):
+                if fn.endswith('.py') and not (base.endswith('hv') and fn in ('replay_real.py', 'cli.py')):   # replays run in another process on the real code
                     p = os.path.join(root, fn)
                     h.update(p.encode())
                     with open(p, 'rb') as f:
